@@ -104,6 +104,32 @@ class Lab(object):
 
         self.SchedStream = SchedStream
 
+        import io as _io
+
+        from clikit.io.output_stream import StreamOutputStream
+
+        class SchedFile(_io.StringIO):
+            """A text file object whose every write call is a scheduling point (what a console stream writes to)."""
+
+            def __init__(self, owner):
+                _io.StringIO.__init__(self)
+                self.owner = owner
+
+            def write(self, x):
+                sched.SCHED.point("write")
+                self.owner.ev.append((sched.SCHED.me(), x))
+                return _io.StringIO.write(self, x)
+
+        class FileSchedStream(StreamOutputStream):
+            def __init__(self):
+                self.ev = []
+                StreamOutputStream.__init__(self, SchedFile(self))
+
+            def supports_ansi(self):
+                return True
+
+        self.FileSchedStream = FileSchedStream
+
 
 def run_schedule(lab, sched, program, prefix, rng=None, max_steps=600, variant="ansi"):
     """Executes the program under one schedule. Returns a result dict.
@@ -123,7 +149,8 @@ def run_schedule(lab, sched, program, prefix, rng=None, max_steps=600, variant="
         return r[idx]
 
     s = sched.new_run(choose, max_steps)
-    st = lab.SchedStream()
+    # 'file-long': the library's wrapper of a file object, and a first message of several thousand characters
+    st = lab.FileSchedStream() if variant == "file-long" else lab.SchedStream()
     out = lab.Output(st, lab.PlainFormatter() if variant == "plain" else lab.AnsiFormatter(forced=True))
     scope = out.indent(3) if variant == "indented" else None
     pi = lab.ProgressIndicator(out, fmt=" {indicator} {message}" if variant != "plain" else " {message}", interval=100)
@@ -131,11 +158,12 @@ def run_schedule(lab, sched, program, prefix, rng=None, max_steps=600, variant="
 
     err = None
     end_message = "" if variant == "empty-end" else "end-msg"
-    messages = {"start-msg", end_message}
+    start_message = "start-" + "L" * 5000 if variant == "file-long" else "start-msg"
+    messages = {start_message, end_message}
     exited = False
     try:
         try:
-            with pi.auto("start-msg", end_message):
+            with pi.auto(start_message, end_message):
                 for kind, arg in program:
                     if kind == "msg":
                         messages.add(MSGS[arg])
@@ -210,7 +238,7 @@ def judge(sh, res, program, record):
             sh.violate("end-frame", record, "after a normal exit the last line is %r" % (lines[-1:] if lines else None,))
         return
     # (3) no mixture after any write
-    t = Term(200)
+    t = Term(20000 if res["variant"] == "file-long" else 200)
     try:
         for who, x in res["events"]:
             t.feed(x)
@@ -396,6 +424,8 @@ def run_manual(sh, maxlen):
     for verbosity in (0, 1, 2, 4):
         for decorated in (True, False):
             VARIANTS.append(("chosen", verbosity, decorated, None, 100))
+    # the indicator is given an I/O whose standard output is of the other kind than the error output the frames go to
+    VARIANTS += [("chosen-mixed", 0, True, None, 100), ("chosen-mixed", 1, False, None, 100), ("chosen-mixed", 2, True, None, 100)]
     VARIANTS += [("chosen", 0, True, BRAILLE, 100), ("explicit", 1, True, ["ab", "cd", "ef"], 250), ("chosen", 2, True, ["<", ">"], 50), ("explicit", 0, True, BRAILLE, 0)]
     TEXTS = {"start-msg": "start-msg", "end-msg": "end-msg"}
     rng = sh.rng
@@ -415,7 +445,15 @@ def run_manual(sh, maxlen):
                 kw["fmt"] = " {indicator} {message}"
             if values is not None:
                 kw["values"] = list(values)
-            pi = ProgressIndicator(out, **kw)
+            target = out
+            if how == "chosen-mixed":
+                from clikit.api.io import IO, Input
+                from clikit.io.input_stream import StringInputStream
+
+                other = Output(Rec(), PlainFormatter() if decorated else AnsiFormatter(forced=True))
+                other.set_verbosity(verbosity)
+                target = IO(Input(StringInputStream("")), other, out)
+            pi = ProgressIndicator(target, **kw)
             allowed = list(values) if values is not None else VALUES
             shows_indicator = decorated or how == "explicit"
             sh.tag("manual_variant", "%s/v%d/%s/%s/%d" % (how, verbosity, "ansi" if decorated else "plain", "default" if values is None else "".join(values)[:4], interval))
@@ -453,7 +491,7 @@ def run_manual(sh, maxlen):
                 except TypeError:
                     # set_message() before the first start() with a format that shows the elapsed time fails on the missing
                     # start time: a call outside the property (nothing has been started), counted, not judged
-                    if op == "msg" and not ever_started and how == "chosen" and verbosity >= 1:
+                    if op == "msg" and not ever_started and how.startswith("chosen") and verbosity >= 1:
                         sh.count("manual_set_message_before_start_with_elapsed")
                         cur = None
                         continue
@@ -501,7 +539,7 @@ def run_manual(sh, maxlen):
                     if ok:
                         if body == cur:
                             pass
-                        elif how == "chosen" and verbosity >= 1 and (body.startswith(cur + " (") or (cur == "" and body.startswith("("))) and body.endswith(")"):
+                        elif how.startswith("chosen") and verbosity >= 1 and (body.startswith(cur + " (") or (cur == "" and body.startswith("("))) and body.endswith(")"):
                             sh.count("manual_frames_with_elapsed")
                         else:
                             ok = False
@@ -542,7 +580,7 @@ def run(sh, spec):
             sh.count("programs")
             run_random(sh, lab, sched, progs[pid], spec["random"], pid)
             # the same program on an undecorated output and inside an indentation scope (smaller bound)
-            for variant in ("plain", "indented", "empty-end"):
+            for variant in ("plain", "indented", "empty-end", "file-long"):
                 explore(sh, lab, sched, progs[pid], min(spec["bound"], 2), min(spec["cap"], 400), pid, variant)
                 sh.count("variant_programs")
         sh.count("programs_fully_enumerated_within_bound", complete)
